@@ -40,7 +40,7 @@ Definition delivery_ok (abort_tail : bool) (s : state) : Prop :=
     sends (log s) = hits lk ++ tail /\
     (tail = [] \/
      (tail = [ev_of (cur_o s)] /\ pend = [] /\ map fst lk = cur_es s /\ aborted (log s) = false) \/
-     (tail = [EvAbort] /\ abort_tail = true /\ aborted (log s) = true /\ count is_kick (log s) >= 1)).
+     (tail = [EvAbort] /\ abort_tail = true /\ aborted (log s) = true)).
 
 (* --- 2. quiet while parked ----------------------------------------------------------------- *)
 (* At all times: every delivered breakpoint event but the newest has been followed by a return of
